@@ -22,6 +22,7 @@ pub mod c15_solids;
 pub mod c16_color;
 pub mod c17_spline;
 pub mod c18_angle;
+pub mod c19_rand;
 pub mod mutate;
 
 pub type MonFn = fn(&Cfg, &mut Report);
@@ -43,6 +44,7 @@ pub fn lookup(prop: &str) -> Option<MonFn> {
         "C16" => c16_color::run,
         "C17" => c17_spline::run,
         "C18" => c18_angle::run,
+        "C19" => c19_rand::run,
         _ => return None,
     })
 }
